@@ -8,7 +8,7 @@ import z3
 from . import core
 from .bytes_ import SymBytes, bytes_eq, mkbytes  # noqa: F401
 from .containers import SymDict, SymSet  # noqa: F401
-from .core import PathAbort, PathCut, Unsupported, active, cur  # noqa: F401
+from .core import PathAbort, PathCut, Unsupported, active, cur, timelimit  # noqa: F401
 from .ints import SymBool, SymInt, bnot, concretize_int, ite  # noqa: F401
 
 
